@@ -32,7 +32,7 @@ OPS = [
     ['take', 0], ['take', 1], ['take', 2], ['take', 3], ['take', 9],
     ['distinct'], ['distinct', 'k_none_mod2'],
     ['duc'], ['duc', 'k_none_mod2'],
-    ['lag', 1], ['lag', 2], ['lag', 3], ['lag', 9],
+    ['lag', 0], ['lag', 1], ['lag', 2], ['lag', 3], ['lag', 9],
     ['pad_start', 0], ['pad_start', 1], ['pad_start', 2], ['pad_start', 2, 9], ['pad_start', 1, 9],
     ['pad_end', 0], ['pad_end', 1], ['pad_end', 2], ['pad_end', 2, 9], ['pad_end', 1, 9],
     ['start_with', []], ['start_with', [7]], ['start_with', [7, 8]],
